@@ -965,6 +965,19 @@ pub fn breaker(key: &Key, r: &mut Rng) -> Option<Key> {
 
 
 /// A derive that usually accompanies `derive` on the same type.
+pub const SIBLING_GROUPS: &[&[&str]] = &[
+    &["Deref", "DerefMut"],
+    &["Index", "IndexMut"],
+    &["AsRef", "AsMut"],
+    &["Add", "AddAssign", "Sub", "SubAssign", "Sum"],
+    &["Mul", "MulAssign", "Div", "DivAssign", "Product"],
+    &["Unwrap", "TryUnwrap", "IsVariant", "TryInto"],
+    &["From", "Into", "Constructor", "TryFrom"],
+    &["Display", "Debug", "Error", "FromStr", "Binary", "LowerHex"],
+    &["Not", "Neg", "BitAnd", "BitOr", "BitXor", "BitAndAssign"],
+    &["IntoIterator", "Deref", "Index"],
+];
+
 pub fn sibling_derive(derive: &str, r: &mut Rng) -> Option<&'static str> {
     const GROUPS: &[&[&str]] = &[
         &["Deref", "DerefMut"],
